@@ -22,5 +22,9 @@ out.append("\nNotes on strengthening: `C04-crc-over-whole-write-buffer` was firs
 out.append("`C13-eof-kind-from-errno` needs errno 103/104, which the quick tier did not force; the orderly-end-of-stream cases now run under every errno state in both tiers.")
 out.append("`C18-accept-loop-waits-for-first-byte` needs an idle earlier connection; the concurrent runs now contain idle connections and a one-sided completion-time bound for the others")
 out.append("(the change is also reported by C07/C14 because every injected-transport connection then hangs; a hang circuit breaker in the harness keeps such runs short).")
+out.append("\nChanges first missed by the check of the property they break (each led to a stronger check; `history` in meta.json):")
+for m in rows:
+    for h in m.get("history", []):
+        out.append("* `%s`: %s" % (m["name"], h))
 open(os.path.join(V, "seeded", "README.md"), "w").write("\n".join(out) + "\n")
 print(len(rows), "entries")
